@@ -502,6 +502,10 @@ def check_resume_order(prog, rep):
                       fc.lineno)
     # init_algorithm: connect save_at_checkpoint; resume_data handed to the engine
     ia = m.func('Simulation.init_algorithm')
+    try:
+        ia = inline_temps(ia, aliases_only=True)      # `checkpoint_event = self.engine.checkpoint`
+    except Exception:
+        pass
     rep.instance('RESUME-checkpoint-connected', {})
     ok = any(isinstance(c, ast.Call) and dotted(c.func) == 'self.engine.checkpoint.connect' and
              c.args and dotted(c.args[0]) == 'self.save_at_checkpoint' for c in body_nodes(ia))
